@@ -105,7 +105,7 @@ def run_one(ck, prog):
         c8 = prog.ctx(tl)
         cfg8 = c8.cfg
         nulls = [bb for bb, t in cfg8.calls(lambda t: (t.get("callee") or "").endswith("core::ptr::null_mut") and t["dst"]["l"] == 0)]
-        vtests = [bb for bb, t in cfg8.calls(lambda t: (t.get("callee") or "").endswith("::is_null")) if canon(c8.args(bb)[0]).endswith("var:v") and not cfg8.in_cycle(bb)]   # the final `v.is_null() || ..` (the loops test their cursor t)
+        vtests = [bb for bb, t in cfg8.calls(lambda t: (t.get("callee") or "").endswith("::is_null")) if isinstance(strip_casts(c8.args(bb)[0]), tuple) and strip_casts(c8.args(bb)[0])[0] == "var" and not cfg8.in_cycle(bb)]   # the final `v.is_null() || ..` (the loops test their cursor t)
         dv_edges = set()
         for sb in cfg8.live_blocks():
             if cfg8.term(sb)["k"] != "switch":
@@ -117,6 +117,11 @@ def run_one(ck, prog):
                         dv_edges.add((e.src, e.dst))
         ck.ob("C04.7", "tmalloc_large|anchor", bool(nulls) and bool(vtests), fn=tl["path"], detail=f"null returns {len(nulls)}, `v.is_null()` tests {len(vtests)}")
         bad = []
+        # the test that matters is the innermost one dominating the null return (`if v.is_null() || ..` right before it)
+        for nb0 in nulls:
+            doms = [vt for vt in vtests if cfg8.dominates(vt, nb0)]
+            inner = [vt for vt in doms if all(cfg8.dominates(o, vt) for o in doms)]
+            vtests = [vt for vt in vtests if vt in inner or not cfg8.dominates(vt, nb0)]
         for vt in vtests:
             nxt = cfg8.term(vt).get("t")
             for e in cfg8.succ.get(nxt, []) if nxt is not None else []:
